@@ -1,20 +1,22 @@
 #!/venv/bin/python
-"""Re-runs all checks on every repaired commit (repaired/<id>) and records in its meta.json which checks still report it
+"""usage: refresh_repaired.py [repaired|evolutions]
+Re-runs all checks on every repaired commit (repaired/<id>) or well-formed configuration evolution (evolutions/<id>) and records in its meta.json which checks still report it
 (conservative_alarm.checks / .rules) together with the hand-written reason from repaired/TRIAGE.json.  A reporting variant without a
 triage entry is an untriaged false alarm: the tool fails."""
 import json, os, subprocess, sys
 V = os.path.dirname(os.path.dirname(os.path.abspath(__file__)))
-tri = json.load(open(os.path.join(V, "repaired", "TRIAGE.json")))
-subprocess.run([os.path.join(V, "tools", "run_seeds.py"), "--dir", "repaired"], capture_output=True, text=True)
+BANK = sys.argv[1] if len(sys.argv) > 1 else "repaired"
+tri = json.load(open(os.path.join(V, BANK, "TRIAGE.json")))
+subprocess.run([os.path.join(V, "tools", "run_seeds.py"), "--dir", BANK], capture_output=True, text=True)
 summ = json.load(open("/tmp/seed_summary.json"))
 bad = 0
 silent = 0
 for k, v in sorted(summ.items()):
-    mp = os.path.join(V, "repaired", k, "meta.json")
+    mp = os.path.join(V, BANK, k, "meta.json")
     m = json.load(open(mp))
     if v["fired"]:
         if k not in tri:
-            print(f"!! repaired/{k}: reported by {v['fired']} and not triaged")
+            print(f"!! {BANK}/{k}: reported by {v['fired']} and not triaged")
             bad += 1
             continue
         m["conservative_alarm"] = {"checks": v["fired"], "rules": v.get("rules", []), "kind": tri[k]["kind"], "why": tri[k]["why"]}
@@ -22,7 +24,7 @@ for k, v in sorted(summ.items()):
         m.pop("conservative_alarm", None)
         silent += 1
         if k in tri:
-            print(f"note: repaired/{k} is silent now; its TRIAGE.json entry is obsolete")
+            print(f"note: {BANK}/{k} is silent now; its TRIAGE.json entry is obsolete")
     json.dump(m, open(mp, "w"), indent=1)
-print(f"repaired: {len(summ)} commits, {silent} silent, {len(summ) - silent - bad} with a documented alarm, {bad} untriaged")
+print(f"{BANK}: {len(summ)} commits, {silent} silent, {len(summ) - silent - bad} with a documented alarm, {bad} untriaged")
 sys.exit(1 if bad else 0)
